@@ -11,6 +11,13 @@ From Borno Require Import Eval.
 From Borno Require Import Cli.
 From Borno Require Import EvalMeta.
 From Borno Require Import EvalOrder.
+From Borno Require Import FlagEval.
+From Borno Require Import FlagCli.
+From Borno Require Import FlagRefineDefs.
+From Borno Require Import FlagRefine.
+From Borno Require Import FlagRefineCli.
+From Borno Require Import FlagSafe.
+From Borno Require Import FlagConverse.
 
 (** once a program has failed nothing after it matters: no later statement runs, prints, prompts or reads *)
 Theorem C06_run_suffix_irrelevant :
@@ -262,3 +269,124 @@ Theorem C06_error_line_var :
             e = RRedeclare /\ ln = line /\ s' = s1 /\ (exists w : value, env_get_here rho x s1 = Some (Some w))).
 Proof. exact (@error_line_var). Qed.
 Print Assumptions C06_error_line_var.
+
+(** THE FLAG MECHANISM (Model/FlagEval.v transcribes the Go code: an error raises a global flag, evaluation is not unwound, every construct must remember to poll): whatever the flag-level evaluator does, the exception-style evaluator all other theorems are about agrees on what a user sees - same first diagnostic, same output, same input consumption *)
+Theorem C06_frun_refines :
+  forall (libm : N -> f64 -> f64 -> f64) (clock : f64)
+           (sched : N -> list (list N * value) -> list (list N * value)) (f : nat) 
+           (repl : bool) (ss : list stmt) (s : state) (fs' : fstate),
+         frun_stmts libm clock sched f repl ss (fclean s) = FOk tt fs' ->
+         fs_flag fs' = false /\ fs_diags fs' = [] /\ run_stmts libm clock sched f repl ss s = Ok tt (fs_st fs') \/
+         fs_flag fs' = true /\
+         (exists (e : rterr) (l : N) (more : list (rterr * N)) (s' : state),
+            fs_diags fs' = (e, l) :: more /\
+            run_stmts libm clock sched f repl ss s = Err e l s' /\ obs_eq s' (fs_st fs')).
+Proof. exact (@frun_refines). Qed.
+Print Assumptions C06_frun_refines.
+
+(** ...also when the host dies printing a cyclic value (only possible before any error) *)
+Theorem C06_frun_refines_crash :
+  forall (libm : N -> f64 -> f64 -> f64) (clock : f64)
+           (sched : N -> list (list N * value) -> list (list N * value)) (f : nat) 
+           (repl : bool) (ss : list stmt) (s : state) (fs' : fstate),
+         frun_stmts libm clock sched f repl ss (fclean s) = FCrash fs' ->
+         fs_flag fs' = false /\ fs_diags fs' = [] /\ run_stmts libm clock sched f repl ss s = Crash (fs_st fs').
+Proof. exact (@frun_refines_crash). Qed.
+Print Assumptions C06_frun_refines_crash.
+
+(** once the flag is up no construct prints, prompts, reads or schedules anything, and the flag stays up: only further diagnostics can follow (all ten evaluator functions) *)
+Theorem C06_after_flag_silent :
+  forall (libm : N -> f64 -> f64 -> f64) (clock : f64)
+           (sched : N -> list (list N * value) -> list (list N * value)) (f : nat),
+         (forall (e : expr) (rho : nat) (fs : fstate),
+          fs_flag fs = true -> silent fs (feval libm clock sched f e rho fs)) /\
+         (forall (es : list expr) (rho : nat) (fs : fstate),
+          fs_flag fs = true -> silent fs (feval_list libm clock sched f es rho fs)) /\
+         (forall (ps : list (list N * expr)) (rho : nat) (fs : fstate),
+          fs_flag fs = true -> silent fs (feval_props libm clock sched f ps rho fs)) /\
+         (forall (repl : bool) (st : stmt) (rho : nat) (fs : fstate),
+          fs_flag fs = true -> silent fs (fexec libm clock sched f repl st rho fs)) /\
+         (forall (d : vdecl) (rho : nat) (fs : fstate),
+          fs_flag fs = true -> silent fs (fexec_var libm clock sched f d rho fs)) /\
+         (forall (ds : list vdecl) (rho : nat) (fs : fstate),
+          fs_flag fs = true -> silent fs (fexec_vars libm clock sched f ds rho fs)) /\
+         (forall (repl : bool) (ss : list stmt) (rho : nat) (fs : fstate),
+          fs_flag fs = true -> silent fs (fexec_list libm clock sched f repl ss rho fs)) /\
+         (forall (ss : list stmt) (rho : nat) (fs : fstate),
+          fs_flag fs = true -> silent fs (fexec_body libm clock sched f ss rho fs)) /\
+         (forall (repl : bool) (c : expr) (b : stmt) (rho : nat) (fs : fstate),
+          fs_flag fs = true -> silent fs (fexec_while libm clock sched f repl c b rho fs)) /\
+         (forall (repl : bool) (c : expr) (inc : option expr) (b : stmt) (rho : nat) (fs : fstate),
+          fs_flag fs = true -> silent fs (fexec_for libm clock sched f repl c inc b rho fs)).
+Proof. exact (@after_flag_silent). Qed.
+Print Assumptions C06_after_flag_silent.
+
+(** ...for a whole statement list *)
+Theorem C06_frun_after_flag :
+  forall (libm : N -> f64 -> f64 -> f64) (clock : f64)
+           (sched : N -> list (list N * value) -> list (list N * value)) (f : nat) 
+           (repl : bool) (ss : list stmt) (fs : fstate) (r : fres unit),
+         fs_flag fs = true ->
+         frun_stmts libm clock sched f repl ss fs = r ->
+         r = FOk tt fs /\
+         (forall (x : unit) (fs' : fstate),
+          r = FOk x fs' ->
+          obs_eq (fs_st fs) (fs_st fs') /\
+          fs_flag fs' = true /\ (exists more : list (rterr * N), fs_diags fs' = fs_diags fs ++ more)) /\
+         (forall fs' : fstate, r <> FCrash fs').
+Proof. exact (@frun_after_flag). Qed.
+Print Assumptions C06_frun_after_flag.
+
+(** the whole command line over the flag-level evaluator has the stdout and exit status of the exception-style one *)
+Theorem C06_fmain_refines :
+  forall (libm : N -> f64 -> f64 -> f64) (clock : f64)
+           (sched : N -> list (list N * value) -> list (list N * value)) (fuel : nat) 
+           (args : list (list N)) (fsys : list N -> file_read) (stdin : list N) (r' : proc_result),
+         fmain libm clock sched fuel args fsys stdin = PExit r' ->
+         exists r : proc_result,
+           main libm clock sched fuel args fsys stdin = PExit r /\
+           p_stdout r = p_stdout r' /\ p_status r = p_status r'.
+Proof. exact (@fmain_refines). Qed.
+Print Assumptions C06_fmain_refines.
+
+(** ...and for a script its stderr begins with the same diagnostic *)
+Theorem C06_fmain_refines_script :
+  forall (libm : N -> f64 -> f64 -> f64) (clock : f64)
+           (sched : N -> list (list N * value) -> list (list N * value)) (fuel : nat) 
+           (path : list N) (fsys : list N -> file_read) (stdin : list N) (r' : proc_result),
+         fmain libm clock sched fuel [path] fsys stdin = PExit r' ->
+         exists r : proc_result,
+           main libm clock sched fuel [path] fsys stdin = PExit r /\
+           p_stdout r = p_stdout r' /\
+           p_status r = p_status r' /\
+           (p_stderr r = p_stderr r' \/
+            (exists (d : stderr_item) (more : list stderr_item), p_stderr r = [d] /\ p_stderr r' = d :: more)).
+Proof. exact (@fmain_refines_script). Qed.
+Print Assumptions C06_fmain_refines_script.
+
+(** conversely every run that does not end in a runtime error is reproduced exactly by the flag-level evaluator with the same fuel *)
+Theorem C06_frun_file_complete :
+  forall (libm : N -> f64 -> f64 -> f64) (clock : f64)
+           (sched : N -> list (list N * value) -> list (list N * value)) (fuel : nat) 
+           (src stdin : list N) (r : proc_result),
+         run_file libm clock sched fuel src stdin = PExit r ->
+         p_status r <> 70 -> frun_file libm clock sched fuel src stdin = PExit r.
+Proof. exact (@frun_file_complete). Qed.
+Print Assumptions C06_frun_file_complete.
+
+(** ...and a run that ends in a runtime error is completed by the flag-level evaluator for every large enough fuel: finishing after an error takes bounded time (the loops end because nil is falsy) *)
+Theorem C06_frun_total_init :
+  forall (libm : N -> f64 -> f64 -> f64) (clock : f64)
+           (sched : N -> list (list N * value) -> list (list N * value)),
+         (forall (n : N) (l : list (list N * value)) (x : list N * value), In x (sched n l) -> In x l) ->
+         forall (f : nat) (repl : bool) (ss : list stmt) (stdin : list N),
+         (exists (a : unit) (s' : state), run_stmts libm clock sched f repl ss (init_state stdin) = Ok a s') \/
+         (exists (e : rterr) (l : N) (s' : state),
+            run_stmts libm clock sched f repl ss (init_state stdin) = Err e l s') ->
+         exists f' : nat,
+           forall f'' : nat,
+           (f' <= f'')%nat ->
+           exists fs' : fstate,
+             frun_stmts libm clock sched f'' repl ss (fclean (init_state stdin)) = FOk tt fs'.
+Proof. exact (@frun_total_init). Qed.
+Print Assumptions C06_frun_total_init.
